@@ -75,6 +75,8 @@ def translate():
     zero_raise = "ifnotbasis[i,:].any():ifnotpbc[i]:requires_completion=Trueelse:raiseValueError(" in src \
         and "ifrequires_completion:system_copy.set_cell(ase.geometry.complete_cell(basis))" in src
     scale = "ifmax_pos>1ormin_pos<0:scale_cell=True" in src
+    # the box repair runs whenever SOME direction is non-periodic (`if not all(pbc)`), per non-periodic axis (`if not pbc[i]`)
+    guard = "ifnotall(pbc):scaled_positions=system_copy.get_scaled_positions()" in src and "foriinrange(3):ifnotpbc[i]:i_pos=scaled_positions[:,i]" in src
     loop = "indices-=tested_indices" in src and "indices-=i_indices" in src and "i_indices={i_seed}" in src \
         and "i_indices.update(i_grain.get_basis_indices())" in src
     dist_radii = "distances=matid.geometry.get_distances(system_copy,radii)" in src and "radii=matid.geometry.get_radii(radii,atomic_numbers)" in src
@@ -115,7 +117,7 @@ def translate():
         if isinstance(st, (ast.Assign, ast.AugAssign, ast.AnnAssign)):
             top |= set(_self_attr_targets(st))
     cond = sorted(set(_self_attr_targets(gr[0])) - top)
-    return {"order": order, "returns": returns == last_var, "zero_row": zero_row, "zero_raise": zero_raise, "scale": scale, "loop": loop,
+    return {"order": order, "returns": returns == last_var, "zero_row": zero_row, "zero_raise": zero_raise, "scale": scale, "repair_guard": guard, "loop": loop,
             "ctor": ctor, "ctor_fwd": fwd, "dist_radii": dist_radii, "sbc_fields": sbc_fields, "sbc_init": "__init__" in fns, "finder_cond": cond}
 
 
@@ -131,6 +133,8 @@ def generate(out=None):
                       "def zeroTestIsRow : Bool := " + b(r["zero_row"]),
                       "def zeroPbcRaises : Bool := " + b(r["zero_raise"]),
                       "def scaleCond : Bool := " + b(r["scale"]),
+                      "/-- the box repair is attempted whenever some direction is non-periodic, along every non-periodic axis -/",
+                      "def repairGuardNotAll : Bool := " + b(r["repair_guard"]),
                       "def loopRemovesTested : Bool := " + b(r["loop"]),
                       "/-- the shared distance information is computed with the resolved clustering radii -/",
                       "def distancesUseRadii : Bool := " + b(r["dist_radii"]),
